@@ -460,6 +460,40 @@ func assertSideCondition(p *Prog, fn *ssa.Function, ta *ssa.TypeAssert) string {
 			}
 		}
 	}
+	// (2b) the same assertion inside a helper of the folder (foldedArithLiteral(left, pos, ret)): the asserted value is
+	// a parameter, and every static caller is a method of the folder that passes the result of an evaluation
+	if pa, isP := ta.X.(*ssa.Parameter); isP && fn.Signature.Recv() == nil {
+		bt, ok := ta.AssertedType.(*types.Basic)
+		if ok && (bt.Kind() == types.String || bt.Kind() == types.Bool) {
+			pi := -1
+			for k, q := range fn.Params {
+				if q == pa {
+					pi = k
+				}
+			}
+			callers, allOK := 0, true
+			for _, f := range p.Funcs {
+				allInstrs(f, func(in ssa.Instruction) {
+					c, ok := in.(*ssa.Call)
+					if !ok || c.Call.StaticCallee() != fn || pi < 0 || pi >= len(c.Call.Args) {
+						return
+					}
+					callers++
+					cr := f
+					for cr.Parent() != nil {
+						cr = cr.Parent()
+					}
+					_, isCallRes := c.Call.Args[pi].(*ssa.Extract)
+					if cr.Signature.Recv() == nil || typeName(cr.Signature.Recv().Type()) != "ExpressionOptimizer" || !isCallRes {
+						allOK = false
+					}
+				})
+			}
+			if callers > 0 && allOK {
+				return "constant folder (helper): every caller is a method of the folder passing the result of an evaluation; the asserted kind is the declared kind of the folded node (side condition BODYKIND)"
+			}
+		}
+	}
 	return ""
 }
 
